@@ -127,14 +127,29 @@ def bind_locks(rule, lock_factory):
     import _thread
     real_t = type(_thread.allocate_lock())
     found = []
-    for obj in [rule] + members_of(rule):
-        for name, v in list(vars(obj).items()):
+
+    def attrs(o):
+        out = dict(getattr(o, '__dict__', None) or {})
+        for cls in type(o).__mro__:
+            for sl in getattr(cls, '__slots__', ()) or ():
+                if isinstance(sl, str) and hasattr(o, sl):
+                    out.setdefault(sl, getattr(o, sl))
+        return out
+
+    def scan(obj, depth):
+        for name, v in list(attrs(obj).items()):
             if isinstance(v, schedule.ModelLock):
-                found.append(v)
+                if not any(v is f for f in found):
+                    found.append(v)
             elif isinstance(v, real_t):
                 lk = lock_factory()
                 setattr(obj, name, lk)
                 found.append(lk)
+            elif depth and type(v).__module__.startswith('dateutil') and not isinstance(v, type(rule).__mro__[-2]):
+                scan(v, depth - 1)       # a private helper object of the library that may own the lock
+
+    for obj in [rule] + members_of(rule):
+        scan(obj, 2)
         for cls in type(obj).__mro__:
             for name, v in list(vars(cls).items()):
                 if isinstance(v, (real_t, schedule.ModelLock)):
